@@ -195,6 +195,27 @@ def next (strategy : Nat) (lens : List Int) (rr : Nat) : Except NextErr Nat × N
   else if strategy = strategyMinLen then (liftErr (minLen lens), rr)
   else (.error .invalidStrategy, rr)
 
+/-! ### UnregisterItem -/
+
+/--
+```go
+for i, item := range m.items {
+    if itemToRemovePtr == itemValuePtr {
+        lastIndex := len(m.items) - 1
+        m.items[i] = m.items[lastIndex]
+        m.items = m.items[:lastIndex]
+        if m.roundRobinIndex >= i { m.roundRobinIndex = 0 }
+        return
+    }
+}
+```
+Items are distinct objects compared by pointer, so "the first slot holding the item" is a slot
+index `i`; an item that is not registered (`i ≥ len`) leaves list and cursor unchanged. -/
+def unregister (lens : List Int) (rr : Nat) (i : Nat) : List Int × Nat :=
+  if i < lens.length then
+    ((lens.set i (lens.getD (lens.length - 1) 0)).dropLast, if rr ≥ i then 0 else rr)
+  else (lens, rr)
+
 /-! ### A small machine for fairness statements
 
 Queues are abstracted to their lengths (`Nat`), the worker's dispatcher to the event `select`
